@@ -773,6 +773,9 @@ func (c *ctx) famGetMany() {
 			return
 		}
 		steps, vals := childrenOf(v)
+		if len(steps) > 8 {
+			c.getManyAll(gv, p, v, steps, vals)
+		}
 		if len(steps) > 5 {
 			steps, vals = steps[:5], vals[:5]
 		}
@@ -870,6 +873,46 @@ func (c *ctx) famGetMany() {
 			}
 		}
 	})
+}
+
+// getManyAll: one GetMany of ALL children of a wide node, in ascending, descending and interleaved request order.
+func (c *ctx) getManyAll(gv generic.Value, p []pbref.Step, v *pbref.Val, steps []pbref.Step, vals []*pbref.Val) {
+	n := len(steps)
+	for _, on := range []string{"ascending", "descending", "interleaved"} {
+		var sel []int
+		for i := 0; i < n; i++ {
+			switch on {
+			case "ascending":
+				sel = append(sel, i)
+			case "descending":
+				sel = append(sel, n-1-i)
+			default:
+				sel = append(sel, (i*37)%n)
+			}
+		}
+		if on == "interleaved" && n%37 == 0 {
+			continue
+		}
+		pns := make([]generic.PathNode, n)
+		for k, i := range sel {
+			pns[k].Path = gpath([]pbref.Step{steps[i]}, false)[0]
+		}
+		trig := fmt.Sprintf("in=%s,all-children,%s", coarse(v), on)
+		where := fmt.Sprintf("%s -> all %d children (%s)", pbref.PathString(p), n, on)
+		var err error
+		if !c.call("GetMany", trig, where, func() { err = gv.GetMany(pns, &generic.Options{}) }) {
+			continue
+		}
+		if err != nil {
+			c.reads++
+			c.l.add("GetMany|"+trig+"|error", "%s at %s: %v", c.s.ID, where, err)
+			continue
+		}
+		for k, i := range sel {
+			q := append(append([]pbref.Step{}, p...), steps[i])
+			c.judge("GetMany", trig, pns[k].Node, vals[i], c.placeOf(q), where+" #"+fmt.Sprint(k), false)
+		}
+	}
 }
 
 // cmpTree compares loaded children with the model (recursively if deep).
